@@ -93,7 +93,9 @@ NOT_EXECUTABLE = {'del', 'import-as', 'from-import-as', 'except-as', 'def-statem
 
 DECOYS = ['sink(1, 2)', 'x_local = 3', 'sink(a_=1)', 'if 0: sink()', 'str(5)', 'sink(*[1, 2])', 'sink(**{{"q": 1}})',
           'y_local = [i for i in range(2)]', 'def _unused(q, *r, **s): return sink(*r, **s)',
-          '_lam = lambda *r, **s: sink(*r, **s)', 'assert True', 'global G_', 'pass']
+          '_lam = lambda *r, **s: sink(*r, **s)', 'assert True', 'global G_', 'pass',
+          'def _unused2(q, /, r_=1, *, s_, t_=2): return sink(q)', '_lam2 = lambda q_=1, *, k_: k_',
+          '@passthrough\ndef _unused3(q: int = 3, *r_: int, k_: int, **s_: int) -> None: return None']
 
 PRELUDE = '''import functools, contextlib
 from sigtools import modifiers
@@ -565,6 +567,7 @@ def sig_key(s, by_name=False):
         return (text, repr(sorted(src.items())), repr(dep))
     names, depths = src_as_sets(s)
     return (tuple(bparams(s)), tuple(repr(p.default) for p in s.parameters.values()),
+            tuple(repr(p.annotation) for p in s.parameters.values()),
             repr(sorted((k, sorted(map(repr, v))) for k, v in names.items())), repr(sorted(map(repr, depths.items()))))
 
 
